@@ -35,7 +35,9 @@ static bool argument_should_escape(const char *argument)
 {
   ASSERT(argument);
 
-  bool should_escape = false;
+  // An empty argument has to be passed as "" or it disappears from the command
+  // line.
+  bool should_escape = strlen(argument) == 0;
 
   for (size_t i = 0; i < strlen(argument); i++) {
     should_escape = should_escape || argument[i] == ' ' ||
